@@ -318,7 +318,9 @@ func TestC03(t *testing.T) {
 		// (iii) an unterminated last token: ill-formed by construction
 		base := strings.TrimRight(gen.Render(p.Stream, gen.Canonical{}).Src, "\n")
 		tail := rapid.SampledFrom([]string{"'abc", `"abc`, "${x", "${x:-", "$(a", "`a", "$((1", "((1", "<<E", "<<E\nbody",
-			"<<A <<B\nx\nA", "<<A <<B\nx\nA\n", "<<A <<B\nA\nB x\n", "<<-A <<B\n\tA\nb", "<<'A' <<B\n$x\nA\n$(", "<<A\n${x", "<<A\n$(a", "<<A\n`a\nA\n"}).Draw(rt, "tail")
+			"<<A <<B\nx\nA", "<<A <<B\nx\nA\n", "<<A <<B\nA\nB x\n", "<<-A <<B\n\tA\nb", "<<'A' <<B\n$x\nA\n$(", "<<A\n${x", "<<A\n$(a", "<<A\n`a\nA\n",
+			// the delimiter text at the end of a body line is not the delimiter line
+			"<<-E\n${x}E\n", "<<E\n$(c)E\n", "<<E\n\\$E\n", "<<-E\n\t$x E\n", "<<E\nxE\n E\n"}).Draw(rt, "tail")
 		lastTop := p.Stream.Toks[len(p.Stream.Toks)-1]
 		if lastTop.Kind == gen.KNewline && len(p.Stream.Toks) > 1 {
 			lastTop = p.Stream.Toks[len(p.Stream.Toks)-2]
@@ -345,6 +347,28 @@ func TestC03(t *testing.T) {
 			}
 			run(rt, c03Case{Src: src, Verdict: "invalid", Marks: marksOf(src, starts), How: "word with the malformed expansion " + bad + " appended"}, len(us)+2, 1, true)
 			st.Class("malformed_expansion")
+		}
+		// (v) names that are not names: a for loop over / a function named like that
+		{
+			var bad string
+			if rapid.Bool().Draw(rt, "badfor") {
+				// a name begins with a letter or "_" (a digit of another script is still a digit)
+				bad = "for " + rapid.SampledFrom([]string{"1a", "\u0663", "\u0663a", "a-b", "a.b", "9", "a+", "\u00b2"}).Draw(rt, "badname") + " in a; do b; done"
+			} else {
+				// special built-in utilities cannot be function names
+				bad = rapid.SampledFrom([]string{"break", "continue", "eval", "exec", "exit", "export", "readonly", "return", "set", "shift", "times", "trap", "unset"}).Draw(rt, "spbuiltin") + "() { a; }"
+			}
+			sep := "; "
+			if lastTop.Kind == gen.KOp {
+				sep = " "
+			}
+			src := base + sep + bad + "\n"
+			starts := append([]int{}, r.Starts...)
+			for o := len(base) + 1; o < len(src); o++ {
+				starts = append(starts, o)
+			}
+			run(rt, c03Case{Src: src, Verdict: "invalid", Marks: marksOf(src, starts), How: "followed by " + bad}, len(us)+6, 1, true)
+			st.Class("invalid_name")
 		}
 		featStats(st, p)
 	}
